@@ -5,6 +5,7 @@ import (
 	"bufio"
 	"bytes"
 	"encoding/json"
+	"filippo.io/age/xverif/props/armwr"
 	"fmt"
 	"io"
 	"math/rand"
@@ -193,6 +194,13 @@ func Run(tier string) {
 	readSchedules(run, seed)
 	policyMatrix(run, id, seed)
 	writerTraces(run, seed)
+	// the armoring writer as a machine (ArmorWrite.tla): every history of writes over sizes around the 3-byte group
+	// and the 48-byte line gives the armor of the concatenation, each successful Write reporting the full count
+	if run.Thorough() {
+		armwr.Run(run, "armor-writer-segmentations", armwr.Config("{0, 1, 2, 3, 46, 47, 48, 49, 50, 96, 800}", 4, 1, 0, "{}", true))
+	} else {
+		armwr.Run(run, "armor-writer-segmentations", armwr.Config("{0, 1, 2, 47, 48, 49, 97, 800}", 3, 1, 0, "{}", true))
+	}
 	run.Finish()
 }
 
